@@ -18,13 +18,14 @@ Mutation operators (on statements that are not logging / docstrings / asserts):
 """
 import ast, copy, json, multiprocessing, os, re, sys
 
-sys.path.insert(0, '/verif')
+_HERE = os.path.dirname(os.path.dirname(os.path.abspath(__file__)))
+sys.path.insert(0, _HERE)     # the snapshot this tool was started from (vp run), else /verif
 sys.dont_write_bytecode = True
 from sa import core, repo_root          # noqa: E402
 from sa.index import Index              # noqa: E402
 
 ROOT = repo_root()
-PROPS = [json.loads(l) for l in open('/verif/properties.jsonl') if l.strip()]
+PROPS = [json.loads(l) for l in open(os.path.join(_HERE, 'properties.jsonl')) if l.strip()]
 SLACK = 25      # anchors were written against the pinned snapshot; fix: commits moved lines a little
 
 
